@@ -396,7 +396,7 @@ package flows
 //@ interface github.com/agglayer/aggkit/aggsender/types.OptimisticSigner.Sign (self, ctx, aggchainReq, newLocalExitRoot, claims)
 //@   modifies nothing
 //@ interface github.com/agglayer/aggkit/aggsender/types.AggsenderFlowBaser.GetNewLocalExitRoot (f, ctx, certParams)
-//@   modifies nothing
+//@   sameas github.com/agglayer/aggkit/aggsender/flows.(*baseFlow).GetNewLocalExitRoot
 //@ interface github.com/agglayer/aggkit/aggsender/types.L1InfoTreeDataQuerier.GetFinalizedL1InfoTreeData (l, ctx)
 //@   sameas github.com/agglayer/aggkit/aggsender/query.(*L1InfoTreeDataQuerier).GetFinalizedL1InfoTreeData
 //@ interface github.com/agglayer/aggkit/aggsender/types.L1InfoTreeDataQuerier.CheckIfClaimsArePartOfFinalizedL1InfoTree (l, finalizedL1InfoTreeRoot, claims)
@@ -422,6 +422,7 @@ package flows
 //@   requires a != nil && a.log != nil && a.l1InfoTreeDataQuerier != nil && a.gerQuerier != nil && a.aggchainProofClient != nil && a.baseFlow != nil && typeIs(a.baseFlow, *baseFlow) && certBuildParams != nil
 //@   requires typeIs(a.l1InfoTreeDataQuerier, *query.L1InfoTreeDataQuerier) && cast(a.l1InfoTreeDataQuerier, *query.L1InfoTreeDataQuerier) != nil && cast(a.l1InfoTreeDataQuerier, *query.L1InfoTreeDataQuerier).l1InfoTreeSyncer != nil
 //@   requires certBuildParams.CertificateType == types.CertificateTypeOptimistic ==> a.optimisticSigner != nil
+//@   requires certBuildParams.CertificateType == types.CertificateTypeOptimistic ==> (cast(a.baseFlow, *baseFlow) != nil && cast(a.baseFlow, *baseFlow).l2BridgeQuerier != nil && cast(a.baseFlow, *baseFlow).lerQuerier != nil && cast(a.baseFlow, *baseFlow).storage != nil && (certBuildParams.LastSentCertificate != nil ==> certBuildParams.LastSentCertificate.Height < 18446744073709551615))
 //@   requires forall(k, 0, len(certBuildParams.Claims), certBuildParams.Claims[k].GlobalIndex != nil)
 //@   modifies proofReqLast, proofReqEnd, proofReqRoot, proofCalls, certBuildParams.ExtraData
 //@   ensures[error-means-nothing] result2 != nil ==> result0 == nil && result1 == nil
@@ -437,6 +438,7 @@ package flows
 //@   requires a != nil && a.log != nil && a.l1InfoTreeDataQuerier != nil && a.gerQuerier != nil && a.aggchainProofClient != nil && a.baseFlow != nil && typeIs(a.baseFlow, *baseFlow) && cast(a.baseFlow, *baseFlow) != nil && buildParams != nil
 //@   requires typeIs(a.l1InfoTreeDataQuerier, *query.L1InfoTreeDataQuerier) && cast(a.l1InfoTreeDataQuerier, *query.L1InfoTreeDataQuerier) != nil && cast(a.l1InfoTreeDataQuerier, *query.L1InfoTreeDataQuerier).l1InfoTreeSyncer != nil
 //@   requires buildParams.CertificateType == types.CertificateTypeOptimistic ==> a.optimisticSigner != nil
+//@   requires buildParams.CertificateType == types.CertificateTypeOptimistic ==> (cast(a.baseFlow, *baseFlow) != nil && cast(a.baseFlow, *baseFlow).l2BridgeQuerier != nil && cast(a.baseFlow, *baseFlow).lerQuerier != nil && cast(a.baseFlow, *baseFlow).storage != nil && (buildParams.LastSentCertificate != nil ==> buildParams.LastSentCertificate.Height < 18446744073709551615))
 //@   requires forall(k, 0, len(buildParams.Claims), buildParams.Claims[k].GlobalIndex != nil)
 //@   modifies buildParams.L1InfoTreeRootFromWhichToProve, buildParams.AggchainProof, buildParams.L1InfoTreeLeafCount, buildParams.ExtraData, proofReqLast, proofReqEnd, proofReqRoot, proofCalls
 //@   ensures[error-means-nothing] result1 != nil ==> result0 == nil
@@ -468,6 +470,7 @@ package flows
 //@   requires a.baseFlow != nil && typeIs(a.baseFlow, *baseFlow) && cast(a.baseFlow, *baseFlow) != nil && cast(a.baseFlow, *baseFlow).l2BridgeQuerier != nil && cast(a.baseFlow, *baseFlow).storage != nil && cast(a.baseFlow, *baseFlow).log != nil
 //@   requires typeIs(a.l1InfoTreeDataQuerier, *query.L1InfoTreeDataQuerier) && cast(a.l1InfoTreeDataQuerier, *query.L1InfoTreeDataQuerier) != nil && cast(a.l1InfoTreeDataQuerier, *query.L1InfoTreeDataQuerier).l1InfoTreeSyncer != nil
 //@   requires storedLastCert != nil ==> (storedLastCert.RetryCount < 9223372036854775807 && storedLastCert.FromBlock <= storedLastCert.ToBlock)
+//@   requires cast(a.baseFlow, *baseFlow).lerQuerier != nil && (storedLastCert != nil ==> storedLastCert.Height < 18446744073709551615)
 //@   requires cast(a.baseFlow, *baseFlow).cfg.StartL2Block < 18446744073709551615 && l2Synced < 9223372036854775808
 //@   modifies heap
 //@   ensures[error-means-nothing] result1 != nil ==> result0 == nil
@@ -492,3 +495,13 @@ package flows
 //@   requires storedLastCert != nil ==> storedLastCert.FromBlock <= storedLastCert.ToBlock
 //@   modifies nothing
 //@   ensures[skipped-blocks-carry-no-events] (result == nil && storedLastCert != nil && storedLastCert.Status != agglayertypes.InError && storedLastCert.ToBlock + 1 < cast(a.baseFlow, *baseFlow).cfg.StartL2Block) ==> nBridgesOf(storedLastCert.ToBlock + 1, cast(a.baseFlow, *baseFlow).cfg.StartL2Block - 1) == 0 && nClaimsOf(storedLastCert.ToBlock + 1, cast(a.baseFlow, *baseFlow).cfg.StartL2Block - 1) == 0 && !cast(a.baseFlow, *baseFlow).cfg.RequireNoFEPBlockGap
+
+// the exit root the optimistic proof request is signed over (C03): the same root the certificate will name - the synced
+// exit-tree root at the deposit count of the last bridge of the range, or the previous root when there is none
+//@ func (f *baseFlow) GetNewLocalExitRoot
+//@   props C03
+//@   requires f != nil && f.l2BridgeQuerier != nil && f.lerQuerier != nil && f.storage != nil
+//@   requires (certParams != nil && certParams.LastSentCertificate != nil) ==> certParams.LastSentCertificate.Height < 18446744073709551615
+//@   modifies nothing
+//@   ensures[nil-parameters-refused] certParams == nil ==> result1 != nil
+//@   ensures[root-after-last-bridge] (certParams != nil && len(certParams.Bridges) > 0 && result1 == nil) ==> result0 == exitRootAt[certParams.Bridges[len(certParams.Bridges) - 1].DepositCount]
